@@ -369,6 +369,8 @@ def fresh(ty, name, idx=(), facts=None):
             return None
         if ty == "fn":
             return Opaque("fn", uf=z3.Function(uid(name), R, R))
+        if ty == "fn2":
+            return Opaque("fn2", uf=z3.Function(uid(name), I, I, R))
         if ty == "any":
             raise EngineError("cannot create a fresh value of unknown element type (%s)" % name)
         raise EngineError("unknown type %r" % (ty,))
